@@ -20,9 +20,9 @@ TimersMatch(p, o) == Len(p) = Len(o) /\ \A i \in DOMAIN p : Near(p[i], o[i])
 Calls(o) == [i \in DOMAIN Kind(o, "produce") |-> Range(Kind(o, "produce")[i][2])]
 Tagged(p, o, e) ==
        (IF FiresOf(p) # FiresOf(o) \/ Len(Kind(p, "fire")) # Len(Kind(o, "fire"))
-           THEN {IF e.a = "Stop" THEN "C19.stop_fails_all"
-                 ELSE IF e.a = "Cancel" THEN "C19.cancel"
-                 ELSE "C01.outcome"} ELSE {})
+           THEN (IF e.a = "Stop" THEN {"C19.stop_fails_all", "C01.fails_on_stop"}
+                 ELSE IF e.a = "Cancel" THEN {"C19.cancel", "C01.fails_on_cancel"}
+                 ELSE {"C01.outcome"}) ELSE {})
   \cup (IF Calls(p) # Calls(o)
            THEN {IF h.afterStop \/ e.a = "Stop" THEN "C19.stop_transmits"
                  ELSE IF e.a \in {"Send", "Tick", "Cancel"} THEN "C19.dispatch"
